@@ -63,6 +63,7 @@ type Chan struct {
 	et     types.Type
 	id     int
 	recvWaiting int
+	sentN, recvN int // items ever appended to / removed from buf (FIFO): a rendezvous sender waits for recvN to pass its own item
 }
 
 // Float is a concrete float (no symbolic floats).
